@@ -17,6 +17,9 @@ pub fn check(t: &Trace<'_>, out: &mut CaseOut) -> bool {
             if t.log.cfg.rx > 65_535 {
                 out.count("connects_with_receive_buffer_above_64k", 1);
             }
+            if t.log.from_one_buffer {
+                out.count("connects_of_sessions_configured_from_one_backing_buffer", 1);
+            }
             if mps != vec![t.log.cfg.rx as u32] {
                 out.violations.push(viol("C14", "C14/connect-advertises-wrong-size", format!("conn {}: CONNECT Maximum Packet Size {:?}, receive buffer is {}", ci.idx, mps, t.log.cfg.rx)));
             }
